@@ -68,8 +68,9 @@ TReset ==
   /\ Is("Reset") /\ Ev.na = NA /\ Ev.rounds = Rounds /\ Ev.per_round = PerRound
   /\ {Ev.temp[i] : i \in 1..Len(Ev.temp)} = TempApps
   /\ {Ev.two[i] : i \in 1..Len(Ev.two)} = TwoPhaseApps
+  /\ {Ev.drainers[i] : i \in 1..Len(Ev.drainers)} = DrainOnlyApps
   /\ cmds' = [a \in Apps |-> <<>>] /\ issued' = [a \in Apps |-> <<>>] /\ done' = [a \in Apps |-> <<>>]
-  /\ apc' = [a \in Apps |-> IF a \in TempApps THEN "create" ELSE "enq"] /\ round' = [a \in Apps |-> 1] /\ left' = [a \in Apps |-> PerRound]
+  /\ apc' = [a \in Apps |-> IF a \in TempApps THEN "create" ELSE IF a \in DrainOnlyApps THEN "subscribe" ELSE "enq"] /\ round' = [a \in Apps |-> 1] /\ left' = [a \in Apps |-> PerRound]
   /\ sub' = [a \in Apps |-> FALSE] /\ token' = [a \in Apps |-> FALSE]
   /\ rpc' = "select" /\ engineRunning' = FALSE /\ rerun' = FALSE
   /\ epc' = "none" /\ eq' = 1 /\ eprog' = FALSE /\ pauseLock' = "free" /\ tickScheduled' = FALSE
